@@ -26,6 +26,14 @@ CLAIMED = {
     "C20": dict(engine="chain", technique="TLA+ model of chain operations (Chain.tla) explored by TLC; operation sequences replayed on LongChain/CowBytes; observations validated by TLC",
                 text="TLC explores all operation sequences to a fixed depth from small chains with arguments at, inside and one past every boundary and checks that the canonical semantics meets the relational postcondition on the flattened sequence; every explored sequence is replayed on the real LongChain (borrowed and owned chunks, debug and production profiles) and TLC validates each observed step against the postcondition; CowBytes accessors/comparisons/hash are compared with TLA+-computed results.",
                 note=REF_NOTE, ref="DESIGN.md section 4 (C20)"),
+    "C12": dict(engine="wake", technique="atomic-step TLA+ model (WriterWake.tla) checked by TLC + loom-enumerated executions of the real code validated by TLC against the same contract",
+                text="TLC explores every interleaving of the writer's poll and the task's acknowledge/close at the grain of single atomic operations (spurious CAS failures included) for eight scenarios and checks the credit/wake-up contract (the pinned check-register-return algorithm is rejected as a self-test); an in-crate loom module (hook, feature verif-hooks) lets loom enumerate the interleavings of the REAL poll_obtain_write_permission / acknowledge / disallow_write under its C11 model, and TLC validates the observable history of every execution (results, which poll's waker was woken, final credit) against the same contract.",
+                note="TLA+ model is sequentially consistent; weak-memory behaviours are explored on the implementation side only (loom's C11 approximation: no load buffering / out-of-thin-air); quick tier bounds loom preemptions at 3",
+                ref="DESIGN.md section 4 (C12)"),
+    "C17": dict(engine="tls", technique="TLA+ decision table + identity-reload state machine (TlsAuth.tla) enumerated by TLC; real rustls handshakes over in-memory duplex validated by TLC",
+                text="TLC enumerates the 72-cell authentication matrix and all reload interleavings of a small identity state machine written from the property text (negative-control models must fail); every cell and script is executed as real handshakes with rcgen-generated chains through the repository's own tls_connect / make_server_config / reload_tls_identity, with an application-data round trip deciding 'reached the server', and TLC validates every logged observation.",
+                note="thin use of TLA+ (decision table + small state machine); cryptography trusted to rustls/webpki/rcgen; the application client is TLS 1.3 only, TLS 1.2 is covered on the server side with a reference client",
+                ref="DESIGN.md section 4 (C17)"),
     "C16": dict(engine="keepalive", technique="timed TLA+ model (Keepalive.tla) checked by TLC + virtual-time traces of the real task validated by TLC",
                 text="TLC checks the clauses of C16 on the tick-based detector for every (I,T) of a grid and every pong history within the horizon (integer time); the real connection task runs on tokio's paused clock against a silent transport with a scripted responder for TLC-enumerated and random cases, and TLC evaluates the same clause definitions on every virtual-time trace.",
                 note="virtual time (exact); FIFO pongs; same-instant events may be processed in either order; finding F12 (false timeouts when I does not divide T) is a known design-level finding",
@@ -46,16 +54,15 @@ for p in props:
 
 PENDING = {
     "C01": "end-to-end tunnel driver not built yet in this session",
-    "C12": "loom-driven conformance (hook H1) not built yet in this session",
     "C14": "decision table and in-process gate driver under construction",
-    "C17": "TLS matrix driver under construction",
     "C19": "back-off / reconnection drivers under construction",
 }
 manifest = dict(
     version=1, setup_cmd="python3 tools/setup.py",
-    hooks=dict(guard="penguin_rs_verif",
-               enable="harness/.cargo/config.toml and harness_app/.cargo/config.toml pass --cfg penguin_rs_verif; no hook in /repo is needed by the checks registered so far",
-               baseline_off_cmd="cd /repo && cargo test --workspace --no-fail-fast --offline", source_commits=[], add_only=True),
+    hooks=dict(guard="cargo feature `verif-hooks` of penguin-mux (the hook module is additionally gated by cfg(all(test, loom)))",
+               enable="RUSTFLAGS='--cfg loom' cargo test -p penguin-mux --lib --features verif-hooks verif_wake (done by tools/fam_wake.py for C12); no other check needs a hook",
+               baseline_off_cmd="cd /repo && cargo test --workspace --no-fail-fast --offline",
+               source_commits=["8337027", "de00901"], add_only=True),
     engines=[
         dict(name="mux", path="tools/families.py", serves_properties=sorted(k for k, v in CLAIMED.items() if v["engine"] == "mux"),
              kind_free_text="TLC model checking of spec/MC_*.cfg + simulator (harness/src/bin/mux_sim.rs) + TLC trace validation (spec/MuxTrace.tla)"),
@@ -63,6 +70,8 @@ manifest = dict(
         dict(name="socks", path="tools/fam_socks.py", serves_properties=["C18"], kind_free_text="Socks.tla / MC_Socks.tla / SocksTrace.tla + harness socks_vec"),
         dict(name="chain", path="tools/fam_chain.py", serves_properties=["C20"], kind_free_text="Chain.tla / ChainTrace.tla + harness chain_vec"),
         dict(name="keepalive", path="tools/fam_keepalive.py", serves_properties=["C16"], kind_free_text="Keepalive.tla / KeepaliveTrace.tla + harness keepalive_sim"),
+        dict(name="wake", path="tools/fam_wake.py", serves_properties=["C12"], kind_free_text="WriterWake.tla / WakeTrace.tla + loom hook penguin-mux/src/verif_wake.rs"),
+        dict(name="tls", path="tools/fam_tls.py", serves_properties=["C17"], kind_free_text="TlsAuth.tla / MC_TlsAuth.tla / TlsTrace.tla + harness_app tls_matrix"),
     ],
     checks=checks,
     not_applicable=[dict(property_id=k, reason=v) for k, v in PENDING.items() if k not in CLAIMED],
